@@ -15,7 +15,7 @@ BASE_WEIGHTS = {"mk": 4, "mk_child": 4, "add": 2, "set": 4, "set_parent": 3, "bs
                 "tag_remove": 1, "node_parent": 2, "follow": 2, "unfollow": 1, "set_p": 1, "k_rename": 1, "h_doc": 1, "delete": 2, "expunge": 1,
                 "flush": 4, "commit": 2, "rollback": 1, "begin_nested": 0, "sp_commit": 0, "sp_rollback": 0, "close": 0, "requery": 1, "get": 1,
                 "lazy": 1, "expire": 0, "expire_all": 0, "refresh": 0, "mut_data": 0, "mut_items": 0, "ext_update": 0, "merge": 0, "drop": 0,
-                "gc": 0, "pickle_rt": 0, "populate_existing": 0, "q_ops": 1, "g_ops": 2}
+                "gc": 0, "pickle_rt": 0, "populate_existing": 0, "q_ops": 1, "g_ops": 2, "expire_attr": 0, "read": 0}
 
 
 def setup():
@@ -41,12 +41,12 @@ def make_gen(weights, cfg_fn=None, nmin=8, nmax=40, shape=None):
         pool = [o for o in ops if o not in drop or o in ("mk", "mk_child", "flush")]
         prog = [[rng.choice(pool), rng.randrange(64), rng.randrange(64)] for _ in range(rng.randint(nmin, nmax))]
         if shape and rng.random() < 0.6:
-            prog = shape(rng, pool)
+            prog = shape(rng, pool, cfg) or prog
         return {"cfg": cfg, "prog": prog, "faults": []}
     return gen_case
 
 
-def txn_blocks(rng, pool):
+def txn_blocks(rng, pool, cfg=None):
     """few objects, then blocks of [begin_nested]* work (begin_nested|flush-heavy)* end; faults land inside work that has in-flight state"""
     r = lambda: rng.randrange(64)
     prog = [[rng.choice(("mk", "mk", "mk_child", "q_ops", "g_ops")), r(), r()] for _ in range(rng.randint(1, 3))]
